@@ -294,6 +294,24 @@ def uid_paths(chk, f, zvt, sites):
             inst = "path " + "-".join(str(x) for x in path[:3]) + ".." + str(path[-1])
             if lo >= KEEP + 1:
                 lf = long_form(pay)
+                if lf is None:
+                    # the same function spelled as a match on `strip_prefix(T, S)`: on the Some path the id is the
+                    # stripped value, on the None path it is T
+                    for cbb, ce, taken, listed in conds:
+                        c = ps.norm(ce)
+                        if c[0] == "discr" and c[1][0] == "call" and c[1][1] == STRIPP and len(c[1][2]) == 2 and c[1][2][1][0] == "str":
+                            sp_ = c[1]
+                            t1 = tail_of(sp_[2][0])
+                            if t1 is None:
+                                continue
+                            if taken == 1:
+                                inner = pay
+                                while inner[0] == "field":
+                                    inner = inner[1]
+                                if inner == sp_ and pay[0] == "field":
+                                    lf = (t1[0], t1[1], sp_[2][1][1])
+                            elif taken == 0 and tail_of(pay) == t1:
+                                lf = (t1[0], t1[1], sp_[2][1][1])
                 chk.require(lf is not None and lf[1] == KEEP and lf[2] == STRIP and (U_seen is None or lf[0] == U_seen),
                             "C18/uid-long", inst,
                             "for a uid longer than %d digits the membership id is %s; specification: the last %d digits of the "
